@@ -354,13 +354,15 @@ OneOfNative(s, v) ==
 OneOfValid(s, v) ==
     LET n == OneOfNative(s, v) IN
     IF ~n.ok THEN Rej
-    ELSE IF n.ismap THEN WrapU(Both(CompatData(n.m, n.w).ok, Valid(n.m, n.w).ok))   \* compatibility rules first, then Validate
+    \* intended (C03): accepted exactly when the member accepts it.  (The current code first applies the
+    \* member's data-mode COMPATIBILITY rules to a map value - oneof.go:250 validateMap - which are stricter
+    \* in places: homogeneous `any` lists, struct values, disabled properties.)
     ELSE Valid(n.m, n.w)
 OneOfSer(s, v) ==
     LET n == OneOfNative(s, v) IN
     IF ~n.ok THEN Rej
     ELSE LET r == Ser(n.m, n.w)
-             c == IF n.ismap THEN Both(CompatData(n.m, n.w).ok, r.ok) ELSE r.ok
+             c == r.ok
          IN IF c # "yes" THEN Wrap(c, Nil)
             ELSE IF Supplied(r.v, s.field).some THEN r ELSE Ok(SetPair(r.v, s.field, n.key))     \* oneof.go:176
 OneOfCompat(s, x) ==
@@ -413,6 +415,9 @@ Unser(s, raw) ==
       [] s.kind = "object" -> ObjUnser(s, raw)
       [] s.kind = "oneof" -> OneOfUnser(s, raw)
       [] s.kind = "scope" -> Unser(Unfold(s, VDepth(raw)), raw)     \* scope.go:79: the root object, references linked
+      \* a reference below the depth the argument reaches: only a chain of single-property inline shorthands
+      \* through self-references gets here without consuming the argument - no finite unfolding accepts it
+      [] s.kind = "refcut" -> Rej
 
 \* Validate: error or nil
 ScalarValid(s, x) ==
@@ -453,6 +458,7 @@ Valid(s, x) ==
       [] s.kind = "object" -> ObjValid(s, x)
       [] s.kind = "oneof" -> OneOfValid(s, x)
       [] s.kind = "scope" -> Valid(Unfold(s, VDepth(x)), x)
+      [] s.kind = "refcut" -> Rej
 
 \* Serialize: the wire form ([]any, map[any]any, int64, float64, string, bool)
 ScalarSer(s, x) ==
@@ -482,6 +488,7 @@ Ser(s, x) ==
       [] s.kind = "object" -> ObjSer(s, x)
       [] s.kind = "oneof" -> OneOfSer(s, x)
       [] s.kind = "scope" -> Ser(Unfold(s, VDepth(x)), x)
+      [] s.kind = "refcut" -> Rej
 
 \* ------------------------------------------------------------------ data-mode ValidateCompatibility
 \* No property fixes its acceptance set (held to totality and determinism: C04, C12); the
@@ -521,6 +528,7 @@ CompatData(s, x) ==
       [] s.kind = "object" -> ObjCompat(s, x)
       [] s.kind = "oneof" -> OneOfCompat(s, x)
       [] s.kind = "scope" -> CompatData(Unfold(s, VDepth(x)), x)
+      [] s.kind = "refcut" -> Rej
 
 Ops == {"unser", "valid", "ser", "compat"}
 Outcome(s, op, x) ==
